@@ -168,6 +168,12 @@ def run(ctx):
     short_item = fixed[0]
     run_history(ctx, [long_item, short_item], [0, 0, 0, 0, 1, 0, 1], S, "long")
     ctx.count("long_history_total_loop_iterations", 5 * long_item.args[0])
+    # many failing calls in a row on one instance (anything a failed call leaves behind accumulates), then calls that must still work
+    fail_items = [it for it in fixed if it.fresh is None]
+    nfail = ctx.pick(140, 400)
+    for fi in range(len(fail_items)):
+        run_history(ctx, [fail_items[fi], short_item, fixed[1]], [0] * nfail + [1, 2, 0, 1], S, "many-failures")
+    ctx.count("failing_calls_in_a_row", nfail)
     ctx.exhaustive = False
     # random histories over generated kernels
     pool = list(fixed)
